@@ -265,6 +265,7 @@ class Driver:
         self.t0 = reactor.seconds()
         self.firings = []       # (tag, virtual time, todo after)
         self.reloads = 0
+        self.journal_outages = 0
         self.exc = None
         self.dirty = True
         self.slept = 0
@@ -309,6 +310,10 @@ class Driver:
                 seen.add((j, t, r))
                 evs.append(('reply', j, t, r, 'success'))
                 evs.append(('reply', j, t, r, 'failure'))
+                if self.journal_outages < 1:
+                    # the completion arrives while the history journal cannot be
+                    # written (one such outage per history)
+                    evs.append(('reply', j, t, r, 'success!journal-outage'))
         if self.reloads < self.max_reload:
             evs.append(('reload',))
         return evs
@@ -340,7 +345,14 @@ class Driver:
             elif ev[0] == 'reply':
                 _k, j, t, r, o = ev
                 idx = [i for i, u in enumerate(w.inflight) if tuple(u[:3]) == (j, t, r)]
-                w.ev_reply(idx[0], o, None)
+                if o.endswith('!journal-outage'):
+                    o = o.split('!')[0]
+                    self.journal_outages += 1
+                    w.journal_fault = True
+                try:
+                    w.ev_reply(idx[0], o, None)
+                finally:
+                    w.journal_fault = False
             elif ev[0] == 'reload':
                 import dawgie
                 self.reloads += 1
@@ -368,7 +380,7 @@ class Driver:
                 tuple(n.tag for n in self.sched.que), timers,
                 tuple(sorted((j, t, r) for j, t, r, _u in w.inflight)),
                 tuple((t, round((at - self.boot_at).total_seconds())) for t, at, _td in self.firings),
-                self.reloads, self.dirty, self.slept)
+                self.reloads, self.dirty, self.slept, self.journal_outages)
 
     def close(self):
         self.clock.uninstall()
@@ -378,6 +390,19 @@ def check(dr, ev, report, final=False):
     w = dr.w
     if dr.exc is not None:
         report(f'C20/recurrence/raises/{type(dr.exc).__name__}/{ev[0]}', f'event {ev} raised {dr.exc!r}')
+    # a unit the scheduler believes is executing exists somewhere (else the
+    # event of its algorithm can never fire again: defer() waits for it)
+    import dawgie.pl.farm as farm
+    flying = {(j, t) for j, t, _r, _u in w.inflight} | {(m.jobid, m.target or '__all__') for m in farm._cluster}
+    for j in farm._jobs:
+        for t in j.get('do'):
+            flying.add((j.tag, t))
+    for tag, n in w.nodes.items():
+        for t in n.get('doing'):
+            if (tag, t) not in flying and (tag, '__all__') not in flying:
+                report('C20/unit-believed-executing-but-nowhere',
+                       f'{tag}[{t}] is in doing after {ev} but no such unit is queued or with a worker: '
+                       f'its periodic event cannot fire again')
     # what a firing queues
     for tag, at, todo in dr.firings:
         kind = dr.eng.kind(tag)
@@ -436,7 +461,10 @@ def job(args):
         def expand(h):
             found = []
             rep = lambda hh: (lambda sig, what: found.append((sig, what, [list(e) for e in hh])))  # noqa: E731
-            build(h, rep(h) if not h else None)
+            here = []
+            build(h, (lambda sig, what: here.append(sig)) if h else rep(h))
+            if here:
+                return [], []     # already reported by the parent: nothing is explored beyond a violating state
             evs = dr.enabled()
             succ = []
             for ev in evs:
